@@ -335,6 +335,22 @@ func c13CursorRule(c *Ctx, u0 *an.Unit, fn string) {
 				}
 			}
 			res := flow.Implies(pc, flow.Or(alts...))
+			if !res.Holds {
+				// the decision may be carried by a flag (a helper read in place of its call reports "crossed the table
+				// end" as a boolean): the flag is true only where one of its `= true` assignments was reached
+				pc2 := u0.FlagRefine(pc, s)
+				atoms2 := map[string]*flow.F{}
+				pc2.Atoms(atoms2)
+				alts2 := append([]*flow.F{}, alts...)
+				for k, a := range atoms2 {
+					if strings.HasPrefix(k, "bytes.Equal(") || (strings.HasPrefix(k, "err") && strings.HasSuffix(k, " == nil")) {
+						alts2 = append(alts2, flow.Not(a))
+					}
+				}
+				if r2 := flow.Implies(pc2, flow.Or(alts2...)); r2.Holds && r2.Undecided == "" {
+					pc, res = pc2, r2
+				}
+			}
 			r.Check("C13-Q3", fn+": the 'finished' cursor is sent only for a short page, a table boundary or a bad key", u0.Pos(s.Pos), res.Holds, "pc = "+clipS(pc.String(), 300))
 		} else {
 			nCont++
@@ -401,7 +417,9 @@ func c13TableCut(c *Ctx, q2 string) {
 				// the innermost loop over the page that contains the cut, and its element variable
 				var elem types.Object
 				u.InspectAll(func(n ast.Node) bool {
-					if rs, ok := n.(*ast.RangeStmt); ok && rs.Pos() <= s.Pos && s.Pos < rs.End() {
+					// (by the position of the cut expression: when the cut is a helper's return read in place of the call,
+					// the assignment itself sits at the call)
+					if rs, ok := n.(*ast.RangeStmt); ok && rs.Pos() <= cut.Pos() && cut.Pos() < rs.End() {
 						if id, ok := rs.Value.(*ast.Ident); ok {
 							elem = u.Info().ObjectOf(id)
 						}
